@@ -41,6 +41,7 @@ WellFormed(in) == /\ NB(in) >= 1 /\ in.ppos \in 1..(Len(in.own) + 1)
                   /\ (IsNested(in) => NB(in) >= 2)
                   \* inside #[parent(...)] only infallible instructions exist: the fallible twin cannot put a `?` site there
                   /\ (in.kind # "bare" => \A j \in DOMAIN in.bit : in.bit[j] # "expr")
-                  /\ (in.kind = "bare" => \A j \in DOMAIN in.bit : in.bit[j] # "kexpr")
+                  \* (kexpr on a bare parent: the parent TYPE's own field carries the ownership-specific pair, so its owned and by-reference
+                  \*  into_existing conversions differ and the flavour of the call the deriving struct makes on it becomes observable)
 Cell(in, k, f) == [pkind |-> in.kind, kind |-> k, fallible |-> f, vars |-> in.vars, parent_first |-> in.ppos = 1]
 =============================================================================
